@@ -36,16 +36,16 @@ variable {P : Perm} {s0 s : Streams}
   unfold Streams.ignoreData; fid_grind
 @[grind ←] theorem recvOpen_acc (k : Nat) (b : Bool) (h : Tr P s0 s) : Tr P s0 (s.recvOpen k b).1 := by
   unfold Streams.recvOpen; fid_grind
-@[grind ←] theorem recvRecvHeaders_acc (k : Nat) (hd : HeadersIn) (hA : ∀ e, P.rpush k e) (h : Tr P s0 s) :
+@[grind ←] theorem recvRecvHeaders_acc (k : Nat) (hd : HeadersIn) (hA : P.rpush k) (h : Tr P s0 s) :
     Tr P s0 (s.recvRecvHeaders k hd).1 := by
   unfold Streams.recvRecvHeaders; fid_fold; fid_grind
-@[grind ←] theorem recvRecvTrailers_acc (k : Nat) (hd : HeadersIn) (hA : ∀ e, P.rpush k e) (h : Tr P s0 s) :
+@[grind ←] theorem recvRecvTrailers_acc (k : Nat) (hd : HeadersIn) (hA : P.rpush k) (h : Tr P s0 s) :
     Tr P s0 (s.recvRecvTrailers k hd).1 := by
   unfold Streams.recvRecvTrailers; fid_fold; fid_grind
-@[grind ←] theorem recvRecvData_acc (k : Nat) (p : Bytes) (eos : Bool) (pad : Option Nat) (hA : ∀ e, P.rpush k e)
+@[grind ←] theorem recvRecvData_acc (k : Nat) (p : Bytes) (eos : Bool) (pad : Option Nat) (hA : P.rpush k)
     (h : Tr P s0 s) : Tr P s0 (s.recvRecvData k p eos pad).1 := by
   unfold Streams.recvRecvData; fid_fold; fid_grind
-@[grind ←] theorem recvRecvPushPromise_acc (k : Nat) (hd : HeadersIn) (hA : ∀ e, P.rpush k e) (h : Tr P s0 s) :
+@[grind ←] theorem recvRecvPushPromise_acc (k : Nat) (hd : HeadersIn) (hA : P.rpush k) (h : Tr P s0 s) :
     Tr P s0 (s.recvRecvPushPromise k hd).1 := by
   unfold Streams.recvRecvPushPromise; fid_fold; fid_grind
 @[grind ←] theorem recvNextIncoming_acc (h : Tr P s0 s) : Tr P s0 s.recvNextIncoming.1 := by
